@@ -8,7 +8,12 @@ import (
 	"go/types"
 )
 
-func deepCopy(t types.Type, v value) value {
+func deepCopy(t types.Type, v value) value { return deepCopyFr(nil, t, v) }
+
+// deepCopyFr copies a message; with a frame, every pointer and map it reads is
+// reported to the race detector as a read by the calling thread (Marshal and
+// Clone read the live message).
+func deepCopyFr(fr *frame, t types.Type, v value) value {
 	switch ut := t.Underlying().(type) {
 	case *types.Basic:
 		return v
@@ -17,7 +22,10 @@ func deepCopy(t types.Type, v value) value {
 		if p == nil {
 			return (*value)(nil)
 		}
-		c := deepCopy(ut.Elem(), *p)
+		if fr != nil {
+			fr.i.sch.onRead(p, fr)
+		}
+		c := deepCopyFr(fr, ut.Elem(), *p)
 		return &c
 	case *types.Struct:
 		s := v.(structure)
@@ -28,7 +36,7 @@ func deepCopy(t types.Type, v value) value {
 			case "state", "sizeCache", "unknownFields":
 				out[i] = zero(f.Type())
 			default:
-				out[i] = deepCopy(f.Type(), s[i])
+				out[i] = deepCopyFr(fr, f.Type(), s[i])
 			}
 		}
 		return out
@@ -39,18 +47,21 @@ func deepCopy(t types.Type, v value) value {
 		}
 		out := make([]value, len(s))
 		for i := range s {
-			out[i] = deepCopy(ut.Elem(), s[i])
+			out[i] = deepCopyFr(fr, ut.Elem(), s[i])
 		}
 		return out
 	case *types.Array:
 		a := v.(array)
 		out := make(array, len(a))
 		for i := range a {
-			out[i] = deepCopy(ut.Elem(), a[i])
+			out[i] = deepCopyFr(fr, ut.Elem(), a[i])
 		}
 		return out
 	case *types.Map:
 		m, _ := v.(*omap)
+		if fr != nil && m != nil {
+			fr.i.sch.onMap(m, false, fr)
+		}
 		if m.len() == 0 {
 			return (*omap)(nil)
 		}
@@ -58,7 +69,7 @@ func deepCopy(t types.Type, v value) value {
 		for i, k := range m.keys {
 			if m.live[i] {
 				out.keys = append(out.keys, k)
-				out.vals = append(out.vals, deepCopy(ut.Elem(), m.vals[i]))
+				out.vals = append(out.vals, deepCopyFr(fr, ut.Elem(), m.vals[i]))
 				out.live = append(out.live, true)
 				out.n++
 				if hasSym(k) {
@@ -74,7 +85,7 @@ func deepCopy(t types.Type, v value) value {
 		if x.t == nil {
 			return x
 		}
-		return iface{t: x.t, v: deepCopy(x.t, x.v)}
+		return iface{t: x.t, v: deepCopyFr(fr, x.t, x.v)}
 	}
 	return v
 }
@@ -89,7 +100,7 @@ func init() {
 			return tuple{[]value(nil), iface{}}
 		}
 		r := fr.i.run
-		r.protoTab = append(r.protoTab, iface{t: m.t, v: deepCopy(m.t, m.v)})
+		r.protoTab = append(r.protoTab, iface{t: m.t, v: deepCopyFr(fr, m.t, m.v)})
 		idx := len(r.protoTab) - 1
 		h := []value{uint8(0xfe), uint8(idx >> 16), uint8(idx >> 8), uint8(idx)}
 		return tuple{h, iface{}}
@@ -128,6 +139,6 @@ func init() {
 		if m.t == nil {
 			return m
 		}
-		return iface{t: m.t, v: deepCopy(m.t, m.v)}
+		return iface{t: m.t, v: deepCopyFr(fr, m.t, m.v)}
 	}
 }
